@@ -266,7 +266,10 @@ func (u *UserHash) SetAdmin(adminState bool) error {
 		return fmt.Errorf("whawty.auth.store: user '%s' does not exist", u.user)
 	}
 	if isAdmin == adminState {
-		return nil
+		// nothing to rename - but an earlier attempt may have renamed the file and
+		// then failed to flush the directory: don't report success before that
+		// rename is known to be on disk
+		return syncDir(u.store.BaseDir)
 	}
 
 	oldname := filepath.Join(u.store.BaseDir, u.user)
